@@ -28,7 +28,7 @@ ASSUMPTIONS = ["Lock.acquire/release and deque operations do not raise in the ty
 TRUSTED = ["Python try/except/finally semantics as modelled by the path enumerator"]
 
 
-def rule_release(ctx: Ctx):
+def rule_release(ctx: Ctx, rule: str = "C04.release"):
     rep, k = ctx.rep, ctx.k
     for eng in k.engines:
         fn, lps = loop_paths(ctx, eng, exc_edges="all", base_exc=True)
@@ -41,7 +41,7 @@ def rule_release(ctx: Ctx):
             # release only while held, never twice
             for s in lp.syms:
                 if s.kind == "REL":
-                    rep.check(bool(s.locked), "C04.release", s.ev.loc(), f"{eng.name}: the lock is released only by its holder, once",
+                    rep.check(bool(s.locked), rule, s.ev.loc(), f"{eng.name}: the lock is released only by its holder, once",
                               fn.key, "release while not held on path: " + " ".join(lp.names()))
             if not acquired:
                 continue
@@ -49,15 +49,15 @@ def rule_release(ctx: Ctx):
                 n_exc += 1
             else:
                 n_norm += 1
-            rep.check(not lp.final_locked, "C04.release", fn.loc(),
+            rep.check(not lp.final_locked, rule, fn.loc(),
                       f"{eng.name}: every exit ({'exceptional' if lp.path.kind == 'raise' else 'normal'}) after a successful acquire leaves the lock free",
                       fn.key, f"exit with the lock held: " + " ".join(lp.names()[-8:]),
                       exit=lp.names()[-1])
-        rep.floor("C04.release", f"exceptional exits of {eng.name}.processing_loop holding the lock", n_exc, 2)
-        rep.floor("C04.release", f"normal exits of {eng.name}.processing_loop after acquire", n_norm, 2)
+        rep.floor(rule, f"exceptional exits of {eng.name}.processing_loop holding the lock", n_exc, 2)
+        rep.floor(rule, f"normal exits of {eng.name}.processing_loop after acquire", n_norm, 2)
 
 
-def rule_clear(ctx: Ctx):
+def rule_clear(ctx: Ctx, rule: str = "C04.clear"):
     rep, k = ctx.rep, ctx.k
     for eng in k.engines:
         fn, lps = loop_paths(ctx, eng, exc_edges="try", base_exc=True)
@@ -68,7 +68,7 @@ def rule_clear(ctx: Ctx):
             syms = lp.syms
             for i, s in enumerate(syms):
                 if s.kind == "TRIG":
-                    rep.check(bool(s.info.get("in_try")), "C04.clear", s.ev.loc(), f"{eng.name}: the drain's _trigger call is protected by a try",
+                    rep.check(bool(s.info.get("in_try")), rule, s.ev.loc(), f"{eng.name}: the drain's _trigger call is protected by a try",
                               fn.key, norm_stmt(s.ev.node))
                 if s.kind != "THROW":
                     continue
@@ -85,17 +85,17 @@ def rule_clear(ctx: Ctx):
                     continue
                 n += 1
                 ok = "HANDLER" in kinds and "CLEAR" in kinds and kinds.index("HANDLER") < kinds.index("CLEAR")
-                rep.check(ok, "C04.clear", s.ev.loc(), f"{eng.name}: a failing event empties the queue (pending events are dropped, not run later)",
+                rep.check(ok, rule, s.ev.loc(), f"{eng.name}: a failing event empties the queue (pending events are dropped, not run later)",
                           fn.key, "after the exception: " + " ".join(repr(r) for r in rest))
                 exc_name = s.ev.term.id if isinstance(s.ev.term, ast.Name) else "?"
                 last = syms[-1]
                 ok2 = last.kind == "EXIT-RAISE" and last.info["value"] == exc_name
-                rep.check(ok2, "C04.clear", s.ev.loc(), f"{eng.name}: the original exception reaches the caller", fn.key,
+                rep.check(ok2, rule, s.ev.loc(), f"{eng.name}: the original exception reaches the caller", fn.key,
                           "after the exception: " + " ".join(repr(r) for r in rest), raised=exc_name, leaves=last.info.get("value"))
                 bad = [r for r in rest if r.kind in ("TRIG", "POP")]
-                rep.check(not bad, "C04.clear", s.ev.loc(), f"{eng.name}: no further event is processed after a failure", fn.key,
+                rep.check(not bad, rule, s.ev.loc(), f"{eng.name}: no further event is processed after a failure", fn.key,
                           "after the exception: " + " ".join(repr(r) for r in rest))
-        rep.floor("C04.clear", f"exception edges out of _trigger in {eng.name}", n, 1)
+        rep.floor(rule, f"exception edges out of _trigger in {eng.name}", n, 1)
 
 
 def _catches_broad(h: ast.ExceptHandler) -> bool:
@@ -157,7 +157,41 @@ def rule_noswallow(ctx: Ctx):
                               f"a handler for {show(h.type)} does not wrap user callbacks, or converts and re-raises ({fn.qualname})",
                               fn.key, norm_stmt(h), wraps_callbacks=invokes_user)
     rep.floor("C04.noswallow", "try statements on the event path", n_try, 4)
+    # the invoker closures built for each resolved callback (attribute / callable / event): what runs at event time is the
+    # user's attribute itself; a lookup with a default, hasattr or suppress would turn a failing attribute into a value
+    disp = ctx.p.module("statemachine/dispatcher.py")
+    n_inv = 0
+    for f in disp.all_functions:
+        par = f.parent
+        if par is None or par.parent is not None or par.cls is not None or isinstance(f.node, ast.Lambda):
+            continue
+        returned = any(isinstance(r, ast.Return) and isinstance(r.value, ast.Name) and r.value.id == f.name for r in own_nodes(par.node))
+        if not returned:
+            continue
+        n_inv += 1
+        for c in own_nodes(f.node):
+            bad = None
+            if isinstance(c, ast.Call) and isinstance(c.func, ast.Name) and c.func.id == "getattr" and len(c.args) >= 3:
+                bad = "getattr with a default"
+            elif isinstance(c, ast.Call) and isinstance(c.func, ast.Name) and c.func.id == "hasattr":
+                bad = "hasattr"
+            elif isinstance(c, ast.Call) and show(c.func).split(".")[-1] == "suppress":
+                bad = "contextlib.suppress"
+            elif isinstance(c, ast.Try) and any(not _reraises(h) for h in c.handlers):
+                bad = "a handler that does not re-raise"
+            if bad:
+                rep.violation("C04.noswallow", f.loc(c), f"the invoker built by `{par.qualname}` uses {bad}: an exception raised by the user's "
+                              "attribute/callback is turned into a value instead of reaching the caller", f.key, norm_stmt(_stmt_of(f, c)))
+    rep.floor("C04.noswallow", "callback invoker closures in the dispatcher", n_inv, 3)
     rep.count("event_path_functions", len(reach))
+
+
+def _stmt_of(fn, node):
+    best = node
+    for st in ast.walk(fn.node):
+        if isinstance(st, ast.stmt) and not isinstance(st, (ast.FunctionDef, ast.AsyncFunctionDef)) and any(x is node for x in ast.walk(st)):
+            best = st
+    return best
 
 
 def rule_state(ctx: Ctx):
